@@ -1,9 +1,408 @@
-/- C09 — executable model (core Lean only).  Stub. -/
+/-
+C09 — executable model of the transformation machinery of classy_blocks (after the repairs):
+
+* the point primitives of `util/functions.py` / `construct/point.py` / `construct/array.py`
+  (`translate`, `rotate` about an axis through an origin, `scale`, `mirror`) over exact rationals;
+  a rotation is parametrised by an unnormalised quaternion `(w, a)`: angle `θ = 2·atan2(|a|, w)` about `a`;
+  a mirror is the Householder map of a (non-unit) normal;
+* the *object graph* of an entity: a tree of parts (`ElementBase.parts`) whose leaves are references
+  (cell numbers) into a heap — one cell per `Point` / `AxisVector`, one per row of an `Array`.  Python
+  transforms in place, so a leaf that is reachable twice is moved twice; the heap model reproduces that;
+* the recursive delegation `ElementBase.translate/rotate/scale/mirror`, the overrides
+  (`AxisVector`: a free axial vector; `Operation.mirror`: mirror the parts, then `invert()`, which swaps the faces
+  and `reverse()`s the side-edge data; `Point`/`Array` methods: default origin 0), `ElementBase.transform`
+  (a transformation list: origin resolved against the *current* centre, parts transformed directly, own overrides
+  bypassed), the `center` rules, and `copy` (a deep copy with memo: fresh cells, aliasing preserved).
+Core Lean only.
+-/
 import CBV.Model.Common
 import CBV.Gen.Tables
 
 namespace CBV.C09
+open CBV
 
-def handle (_op : String) (_args : List String) : Option String := none
+/-! ### point primitives -/
+
+/-- linear part of the rotation by `θ = 2·atan2(|a|, w)` about `a`: `v + 2(w a×v + a×(a×v))/(w²+|a|²)` -/
+def rotLin (w : Rat) (a v : V3) : V3 :=
+  let c1 := V3.cross a v
+  let c2 := V3.cross a c1
+  v + V3.smul (2 / (w * w + V3.dot a a)) (V3.smul w c1 + c2)
+
+/-- `functions.rotate(point, angle, axis, origin)` -/
+def rotP (w : Rat) (a o p : V3) : V3 := rotLin w a (p - o) + o
+
+/-- `functions.scale(point, ratio, origin)` -/
+def scaleP (r : Rat) (o p : V3) : V3 := o + V3.smul r (p - o)
+
+/-- linear part of the reflection about the plane with (non-unit) normal `n` -/
+def mirLin (n v : V3) : V3 := v - V3.smul (2 * V3.dot v n / V3.dot n n) n
+
+/-- `functions.mirror(point, normal, origin)` (after the repair: a pure function) -/
+def mirP (n o p : V3) : V3 := mirLin n (p - o) + o
+
+/-- A transformation as the caller writes it: the origin may be left out. -/
+inductive Tr where
+  | translate (d : V3)
+  | rotate (w : Rat) (a : V3) (o : Option V3)
+  | scale (r : Rat) (o : Option V3)
+  | mirror (n : V3) (o : Option V3)
+  deriving Repr
+
+/-- A transformation with its origin resolved: what the parts receive. -/
+inductive RT where
+  | translate (d : V3)
+  | rotate (w : Rat) (a o : V3)
+  | scale (r : Rat) (o : V3)
+  | mirror (n o : V3)
+  deriving Repr
+
+/-- action on a point cell (`Point.*`, rows of `Array.*`) -/
+def RT.pt : RT → V3 → V3
+  | .translate d, p => p + d
+  | .rotate w a o, p => rotP w a o p
+  | .scale r o, p => scaleP r o p
+  | .mirror n o, p => mirP n o p
+
+/-- action on an axis-direction cell (`AxisVector.*`): never displaced, turned by a rotation,
+    reflected *and reversed* by a mirror (it is an axial vector) -/
+def RT.dir : RT → V3 → V3
+  | .translate _, v => v
+  | .rotate w a _, v => rotLin w a v
+  | .scale _ _, v => v
+  | .mirror n _, v => -(mirLin n v)
+
+def RT.isMirror : RT → Bool
+  | .mirror _ _ => true
+  | _ => false
+
+/-- the real code divides by `|axis|` / `|normal|`; a zero vector gives NaN there -/
+def Tr.ok : Tr → Bool
+  | .translate _ => true
+  | .rotate _ a _ => V3.dot a a != 0
+  | .scale _ _ => true
+  | .mirror n _ => V3.dot n n != 0
+
+/-! ### heap and entity tree -/
+
+abbrev Heap := List V3
+
+def Heap.get (h : Heap) (i : Nat) : V3 := h.getD i V3.zero
+
+inductive Kind where
+  | op | face | angle | spline | oncurve | edge | circle | lcurve | dcurve | icurve
+  | grid | firstpt | face0 | sketchavg | shape | sphere | stack | joint | asm | other
+  deriving DecidableEq, Repr
+
+inductive Ent where
+  | pt (i : Nat)
+  | dir (i : Nat)
+  | arr (is : List Nat)
+  | node (k : Kind) (attr : Rat) (ch : List Ent)
+  deriving Repr
+
+/-- `EdgeData.reverse()`: `Angle` negates its angle, `Spline`/`PolyLine` flip the rows of their array -/
+def reverseE : Ent → Ent
+  | .node .angle a ch => .node .angle (-a) ch
+  | .node .spline a [.node .dcurve a2 [.arr is]] => .node .spline a [.node .dcurve a2 [.arr is.reverse]]
+  | e => e
+
+/-- `Operation.invert()` on the part list `[bottom, top, side0 … side3]` -/
+def invertOp : List Ent → List Ent
+  | b :: t :: sides => t :: b :: sides.map reverseE
+  | ch => ch
+
+mutual
+/-- a method call `e.translate/rotate/scale/mirror` with an explicit origin: recursion into the parts, then the
+    entity's own override -/
+def applyE (t : RT) : Ent → Heap → Ent × Heap
+  | .pt i, h => (.pt i, h.modify i t.pt)
+  | .dir i, h => (.dir i, h.modify i t.dir)
+  | .arr is, h => (.arr is, is.foldl (fun h i => h.modify i t.pt) h)
+  | .node k a ch, h =>
+      let r := applyL t ch h
+      (.node k a (if t.isMirror && k == .op then invertOp r.1 else r.1), r.2)
+/-- `for component in self.parts: component.<method>(…)` -/
+def applyL (t : RT) : List Ent → Heap → List Ent × Heap
+  | [], h => ([], h)
+  | e :: es, h =>
+      let r1 := applyE t e h
+      let r2 := applyL t es r1.2
+      (r1.1 :: r2.1, r2.2)
+end
+
+/-! ### centres (default origins) -/
+
+def vsum (ps : List V3) : V3 := ps.foldl (· + ·) V3.zero
+
+/-- `np.average(points, axis=0)` -/
+def avg (ps : List V3) : V3 := V3.smul (1 / (ps.length : Rat)) (vsum ps)
+
+def ptOf (h : Heap) : Ent → Option V3
+  | .pt i => some (h.get i)
+  | _ => none
+
+def children : Ent → List Ent
+  | .node _ _ ch => ch
+  | _ => []
+
+def kindOf : Ent → Option Kind
+  | .node k _ _ => some k
+  | _ => none
+
+/-- the four corner points of a face (its first four parts) -/
+def facePts (h : Heap) (e : Ent) : List V3 := ((children e).take 4).filterMap (ptOf h)
+
+def faceCenter (h : Heap) (e : Ent) : V3 := avg (facePts h e)
+
+/-- `Operation.point_array`: bottom and top face points -/
+def opPts (h : Heap) (e : Ent) : List V3 :=
+  match children e with
+  | b :: t :: _ => facePts h b ++ facePts h t
+  | _ => []
+
+def opCenter (h : Heap) (e : Ent) : V3 := avg (opPts h e)
+
+def opsOf (e : Ent) : List Ent := (children e).filter (fun c => kindOf c == some .op)
+
+/-- `Shape.center`: average of the operation centres -/
+def shapeCenter (h : Heap) (e : Ent) : V3 := avg ((opsOf e).map (opCenter h))
+
+/-- centre of a curve entity; `oc` is the observed centre for kinds without a modelled rule -/
+def curveCenter (h : Heap) (oc : Option V3) (e : Ent) : Option V3 :=
+  match e with
+  | .node .dcurve _ [.arr is] => some (avg (is.map h.get))
+  | .node .lcurve _ [.pt a, .pt b] => some (V3.smul (1 / 2) (h.get a + h.get b))
+  | .node .circle _ (.pt o :: _) => some (h.get o)
+  | _ => oc
+
+/-- `entity.center` -/
+def center (h : Heap) (oc : Option V3) (e : Ent) : Option V3 :=
+  match e with
+  | .pt i => some (h.get i)
+  | .dir i => some (h.get i)
+  | .arr is => some (avg (is.map h.get))
+  | .node k _ ch =>
+    match k with
+    | .edge | .angle => some V3.zero
+    | .spline | .oncurve => (ch.head?).bind (curveCenter h oc)
+    | .dcurve | .lcurve | .circle | .icurve => curveCenter h oc e
+    | .face => some (faceCenter h e)
+    | .op => some (opCenter h e)
+    | .shape => some (shapeCenter h e)
+    | .sphere => (ch.getD (ch.length - 2) (.arr [])) |> ptOf h
+    | .joint => (ch.getD (ch.length - 1) (.arr [])) |> ptOf h
+    | .stack => some (avg ((ch.flatMap opsOf).map (opCenter h)))
+    | .asm => some (avg (ch.map (shapeCenter h)))
+    | .grid =>
+        match ch.head?, ch.getLast? with
+        | some f0, some fl =>
+            match (facePts h f0).head?, (facePts h fl)[2]? with
+            | some a, some b => some (V3.smul (1 / 2) (a + b))
+            | _, _ => none
+        | _, _ => none
+    | .firstpt => (ch.head?).bind (fun f0 => (facePts h f0).head?)
+    | .face0 => (ch.head?).map (faceCenter h)
+    | .sketchavg => some (avg (ch.map (faceCenter h)))
+    | .other => oc
+
+/-! ### method calls, transformation lists, copies -/
+
+def isLeaf : Ent → Bool
+  | .node _ _ _ => false
+  | _ => true
+
+/-- the origin a rotation/scaling without origin uses: `Point`/`Array` *methods* default to (0,0,0),
+    every other method and every transformation list default to `self.center` -/
+def defaultOrigin (viaMethod : Bool) (h : Heap) (oc : Option V3) (e : Ent) : Option V3 :=
+  if viaMethod && isLeaf e then some V3.zero else center h oc e
+
+def Tr.resolveWith (c : Option V3) : Tr → Option RT
+  | .translate d => some (.translate d)
+  | .rotate w a (some o) => some (.rotate w a o)
+  | .rotate w a none => c.map (fun o => .rotate w a o)
+  | .scale r (some o) => some (.scale r o)
+  | .scale r none => c.map (fun o => .scale r o)
+  | .mirror n o => some (.mirror n (o.getD V3.zero))
+
+/-- `e.translate(…)` / `e.rotate(…)` / `e.scale(…)` / `e.mirror(…)` -/
+def method (t : Tr) (oc : Option V3) (s : Ent × Heap) : Option (Ent × Heap) := do
+  let rt ← t.resolveWith (defaultOrigin true s.2 oc s.1)
+  some (applyE rt s.1 s.2)
+
+/-- one element of `e.transform([...])`: the parts are transformed directly (the entity's own override of the
+    method is not used); a leaf is its own part -/
+def transformStep (t : Tr) (oc : Option V3) (s : Ent × Heap) : Option (Ent × Heap) := do
+  let rt ← t.resolveWith (defaultOrigin false s.2 oc s.1)
+  match s.1 with
+  | .node k a ch =>
+      let r := applyL rt ch s.2
+      some (.node k a r.1, r.2)
+  | leaf => some (applyE rt leaf s.2)
+
+def runSteps (viaMethod : Bool) (ts : List (Tr × Option V3)) (s : Ent × Heap) : Option (Ent × Heap) :=
+  ts.foldlM (fun s t => if viaMethod then method t.1 t.2 s else transformStep t.1 t.2 s) s
+
+/-- state of a deep copy: memo (old cell ↦ new cell) and the growing heap -/
+structure CopySt where
+  memo : List (Nat × Nat)
+  heap : Heap
+
+def copyCell (i : Nat) (s : CopySt) : Nat × CopySt :=
+  match s.memo.lookup i with
+  | some j => (j, s)
+  | none => (s.heap.length, ⟨(i, s.heap.length) :: s.memo, s.heap ++ [s.heap.get i]⟩)
+
+def copyCells : List Nat → CopySt → List Nat × CopySt
+  | [], s => ([], s)
+  | i :: is, s =>
+      let r1 := copyCell i s
+      let r2 := copyCells is r1.2
+      (r1.1 :: r2.1, r2.2)
+
+mutual
+def copyE : Ent → CopySt → Ent × CopySt
+  | .pt i, s => let r := copyCell i s; (.pt r.1, r.2)
+  | .dir i, s => let r := copyCell i s; (.dir r.1, r.2)
+  | .arr is, s => let r := copyCells is s; (.arr r.1, r.2)
+  | .node k a ch, s => let r := copyL ch s; (.node k a r.1, r.2)
+def copyL : List Ent → CopySt → List Ent × CopySt
+  | [], s => ([], s)
+  | e :: es, s =>
+      let r1 := copyE e s
+      let r2 := copyL es r1.2
+      (r1.1 :: r2.1, r2.2)
+end
+
+/-- `entity.copy()` (`copy.deepcopy`) -/
+def copy (e : Ent) (h : Heap) : Ent × Heap :=
+  let r := copyE e ⟨[], h⟩
+  (r.1, r.2.heap)
+
+/-! ### line protocol -/
+
+def kindOfStr : String → Option Kind
+  | "op" => some .op | "face" => some .face | "angle" => some .angle | "spline" => some .spline
+  | "oncurve" => some .oncurve | "edge" => some .edge | "circle" => some .circle | "lcurve" => some .lcurve
+  | "dcurve" => some .dcurve | "icurve" => some .icurve | "grid" => some .grid | "firstpt" => some .firstpt | "face0" => some .face0
+  | "sketchavg" => some .sketchavg | "shape" => some .shape | "sphere" => some .sphere | "stack" => some .stack
+  | "joint" => some .joint | "asm" => some .asm | "other" => some .other
+  | _ => none
+
+def Kind.str : Kind → String
+  | .op => "op" | .face => "face" | .angle => "angle" | .spline => "spline" | .oncurve => "oncurve"
+  | .edge => "edge" | .circle => "circle" | .lcurve => "lcurve" | .dcurve => "dcurve" | .icurve => "icurve"
+  | .grid => "grid" | .firstpt => "firstpt" | .face0 => "face0" | .sketchavg => "sketchavg" | .shape => "shape" | .sphere => "sphere"
+  | .stack => "stack" | .joint => "joint" | .asm => "asm" | .other => "other"
+
+/-- post-order token of a tree: `P<i>`, `D<i>`, `A<i;j;…>`, `N:<kind>:<attr>:<number of parts>` -/
+def parseTok (st : List Ent) (tok : String) : Option (List Ent) :=
+  if tok.startsWith "N:" then
+    match tok.splitOn ":" with
+    | [_, k, a, n] => do
+        let k ← kindOfStr k
+        let a ← parseRat? a
+        let n ← parseNat? n
+        if st.length < n then none else some (.node k a (st.take n).reverse :: st.drop n)
+    | _ => none
+  else if tok.startsWith "P" then (parseNat? (tok.drop 1).toString).map (fun i => .pt i :: st)
+  else if tok.startsWith "D" then (parseNat? (tok.drop 1).toString).map (fun i => .dir i :: st)
+  else if tok.startsWith "A" then
+    ((((tok.drop 1).toString.splitOn ";").filter (· ≠ "")).mapM parseNat?).map (fun is => .arr is :: st)
+  else none
+
+def parseTree (toks : List String) : Option Ent :=
+  match toks.foldlM parseTok [] with
+  | some [e] => some e
+  | _ => none
+
+def parseOptV3 (s : String) : Option (Option V3) :=
+  if s == "-" then some none else (parseV3? s).map some
+
+/-- `T:d`, `R:w:a:o|-[@c]`, `S:r:o|-[@c]`, `M:n:o|-[@c]` -/
+def parseStep (s : String) : Option (Tr × Option V3) :=
+  match s.splitOn "@" with
+  | [body] => (go body).map (·, none)
+  | [body, c] => do
+      let t ← go body
+      let c ← parseV3? c
+      some (t, some c)
+  | _ => none
+where
+  go (body : String) : Option Tr :=
+    match body.splitOn ":" with
+    | ["T", d] => (parseV3? d).map .translate
+    | ["R", w, a, o] => do some (.rotate (← parseRat? w) (← parseV3? a) (← parseOptV3 o))
+    | ["S", r, o] => do some (.scale (← parseRat? r) (← parseOptV3 o))
+    | ["M", n, o] => do some (.mirror (← parseV3? n) (← parseOptV3 o))
+    | _ => none
+
+mutual
+def showE (h : Heap) : Ent → List String
+  | .pt i => [s!"P{i}=" ++ (h.get i).toStr]
+  | .dir i => [s!"D{i}=" ++ (h.get i).toStr]
+  | .arr is => ["A=" ++ ";".intercalate (is.map (fun i => (h.get i).toStr))]
+  | .node k a ch => showL h ch ++ [s!"N:{k.str}:{showRat a}:{ch.length}"]
+def showL (h : Heap) : List Ent → List String
+  | [] => []
+  | e :: es => showE h e ++ showL h es
+end
+
+mutual
+def cellsE : Ent → List Nat
+  | .pt i => [i]
+  | .dir i => [i]
+  | .arr is => is
+  | .node _ _ ch => cellsL ch
+def cellsL : List Ent → List Nat
+  | [] => []
+  | e :: es => cellsE e ++ cellsL es
+end
+
+/-- `c09.run <m|l|mc|lc> <ncells> <cell…> <ntok> <tok…> <step…>` → resolved tree(s) in post-order -/
+def handleRun (args : List String) : Option String :=
+  match args with
+  | mode :: nc :: rest => do
+      let nc ← parseNat? nc
+      if rest.length < nc + 1 then none
+      let h ← (rest.take nc).mapM parseV3?
+      let rest := rest.drop nc
+      let nt ← (rest.head?).bind parseNat?
+      let rest := rest.drop 1
+      if rest.length < nt then none
+      let e ← parseTree (rest.take nt)
+      let steps ← (rest.drop nt).mapM parseStep
+      if (cellsE e).any (fun i => i ≥ h.length) then none
+      if steps.any (fun s => !s.1.ok) then some "degenerate" else
+      let (viaMethod, cp) ← (match mode with
+        | "m" => some (true, false) | "l" => some (false, false)
+        | "mc" => some (true, true) | "lc" => some (false, true) | _ => none)
+      if cp then
+        let c := copy e h
+        match runSteps viaMethod steps c with
+        | some (e', h') => some ("ok " ++ " ".intercalate (showE h' e ++ ["|"] ++ showE h' e'))
+        | none => some "needs-center"
+      else
+        match runSteps viaMethod steps (e, h) with
+        | some (e', h') => some ("ok " ++ " ".intercalate (showE h' e'))
+        | none => some "needs-center"
+  | _ => none
+
+/-- `c09.prim <step> <point…>` → images of the points under the step with explicit origin -/
+def handlePrim (args : List String) : Option String :=
+  match args with
+  | step :: pts => do
+      let (t, _) ← parseStep step
+      let ps ← pts.mapM parseV3?
+      if !t.ok then some "degenerate" else
+      let rt ← t.resolveWith none
+      some ("ok " ++ " ".intercalate (ps.map (fun p => (rt.pt p).toStr)))
+  | _ => none
+
+def handle (op : String) (args : List String) : Option String :=
+  match op with
+  | "c09.run" => handleRun args
+  | "c09.prim" => handlePrim args
+  | _ => none
 
 end CBV.C09
